@@ -22,6 +22,7 @@ Inductive ckind2 :=
 | KTwice           (* one Send delivered twice to one pipeline version *)
 | KTwoVersions     (* one Send delivered to two versions of one pipeline id *)
 | KWrongType       (* delivery to a pipeline of another event type *)
+| KNeither         (* a pipeline that was registered throughout and at most overwritten meanwhile got no delivery in any version *)
 | KNotLinearizable (* no order of the calls consistent with real time explains the results and the final registry *)
 | KLinBudget.      (* the search ran out of budget: inconclusive, not a violation *)
 
@@ -63,6 +64,9 @@ Definition check_send (ks : list kop) (failed : list N) (i : N) (s : csend) : li
         (if must1 (ko_inv r) (ko_ret r) (cs_inv s) (cs_ret s) others && Nat.eqb c 0 then [KLost] else []) ++
         (if must0 (ko_inv r) (ko_ret r) (cs_inv s) (cs_ret s) others && Nat.ltb 0 c then [KGhost] else []) ++
         (if Nat.ltb 1 c then [KTwice] else []) ++
+        (if must_some (ko_inv r) (ko_ret r) (cs_inv s) (cs_ret s) others &&
+            Nat.eqb (fold_left (fun n o => if same_key o r then match ko_tap o with Some v' => n + countN v' (cs_seen s) | None => n end else n) ks 0)%nat 0
+         then [KNeither] else []) ++
         (* two versions of one id in one Send *)
         (if Nat.ltb 0 c && existsb (fun o => same_key o r && negb (same_kop o r) &&
                                              match ko_tap o with Some v' => negb (N.eqb v' v) && Nat.ltb 0 (countN v' (cs_seen s)) | None => false end) ks
